@@ -241,6 +241,9 @@ SAFETY_WHAT = {
     "both-vote;x-goes-on-with-the-voteproof-y-entered-with":
         "Y entered consensus with INIT voteproof k (Finish delivered) while X's sendVoteproof(k) returned isFinished=false, "
         "so X's consensus handler goes on to vote after the same voteproof",
+    "both-vote;x-goes-on-with-the-voteproof-y-entered-with;after-a-good-finish":
+        "finish() succeeded (broker finished, Y in consensus with INIT voteproof k) but sendVoteproof(k) returned isFinished=false: "
+        "X's consensus handler goes on to vote after the voteproof it handed over",
     "both-vote;x-votes-after-later-voteproof": "X voted after a voteproof later than the one Y entered consensus with",
     "both-in;y-in-consensus-x-not-out": "Y is in consensus, X's finish() has returned and X was not told to leave (whenFinished not called)",
     "x-finished-but-not-out": "HandoverXBroker is finished but whenFinished was never called",
@@ -384,34 +387,81 @@ def record_and_validate(ctx):
     t = os.path.join(ctx.work, "trace.ndjson")
     ctx.vh([ID, "record", "--num", num, "--out", t], timeout=900)
     events = core.read_ndjson(t)
-    ok, res, hw = ctx.tlc_validate_trace("HandoverTrace", "HandoverTrace.cfg", t, timeout=1500, dfs=True)
     runs = sum(1 for e in events if e["a"] == "Reset")
     ctx.traces += runs
     ctx.extra["recorded_events"] = len(events)
+    ctx.extra["recorded_runs_y_entered"] = sum(
+        1 for i, e in enumerate(events) if e["a"] == "Act" and e["obs"]["yIn"] > 0
+        and (i + 1 == len(events) or events[i + 1]["a"] == "Reset"))
     cur = []
-    for e in events:
+    for e in events + [{"a": "Reset"}]:
         if e["a"] == "Reset":
             if cur:
                 ctx.case(cur, nontrivial=len(cur) > 6)
             cur = []
-        else:
-            cur.append([e["a"], e.get("k"), (e.get("m") or {}).get("t"), e.get("o"), e.get("r")])
-    if cur:
-        ctx.case(cur, nontrivial=len(cur) > 6)
-    if not ok:
-        j = (hw or 1) - 1
+        elif e["a"] == "Act":
+            a = e["act"]
+            cur.append([a["a"], a.get("k"), (a.get("m") or {}).get("t"), a.get("o"), a.get("r")])
+    for attempt in range(4):
+        ok = _validate(ctx, events)
+        if ok is True:
+            break
+        # ok = index of the Reset of the run that stopped the validation: cut it out, validate the rest
+        nxt = ok + 1
+        while nxt < len(events) and events[nxt]["a"] != "Reset":
+            nxt += 1
+        events = events[:ok] + events[nxt:]
+        core.write_ndjson(t, events)
+        if not any(e["a"] == "Act" for e in events):
+            break
+
+
+def _validate(ctx, events):
+    """-> True (whole file consumed) or the index of the Reset event of the run TLC stopped in"""
+    t = os.path.join(ctx.work, "trace.ndjson")
+    ok, res, hw = ctx.tlc_validate_trace("HandoverTrace", "HandoverTrace.cfg", t, timeout=1500, dfs=True)
+
+    def history(j):
         k = j
         while k > 0 and events[k]["a"] != "Reset":
             k -= 1
-        ev = events[j] if j < len(events) else None
+        return [dict(e.get("act") or {"a": e["a"]}) for e in events[k:j + 1]]
+
+    for e in events:
+        if e["a"] == "Panic":
+            ctx.violation("panic;" + act_name(e.get("act") or {}), "panic in a real broker during a recorded run: %s" % e["panic"][:300], e)
+    seen_runs = set()
+    for (cls, line, rest) in res.mismatches():
+        j = line - 1
+        k = j
+        while k > 0 and events[k]["a"] != "Reset":
+            k -= 1
+        if k in seen_runs:      # the first difference of a run; the model state has left the real one after it
+            continue
+        seen_runs.add(k)
+        act = (events[j].get("act") or {}) if j < len(events) else {}
+        ctx.violation("trace;mismatch;%s;%s" % (act_name(act), cls),
+                      "recorded run: after %s the real brokers show %s (real, model) = %s" % (json.dumps(act, sort_keys=True), cls, rest),
+                      {"line": line, "history": history(j), "observed": (events[j].get("obs") if j < len(events) else None)})
+    if not ok:
+        if hw is None:      # stopped by an invariant: the trace index of the last state of the error trace
+            ls = re.findall(r"(?m)^/\\ l = (\d+)", res.out)
+            hw = int(ls[-1]) - 1 if ls else 1
+        j = max(0, min((hw or 1) - 1, len(events) - 1))
+        ev = events[j]
+        k = j
+        while k > 0 and events[k]["a"] != "Reset":
+            k -= 1
         if res.violated and res.violated not in ("<postcondition>",):
             ctx.violation("trace;invariant;%s" % res.violated,
-                          "a recorded run of the real brokers reaches a state that violates %s of Handover.tla" % res.violated,
-                          {"history": events[k:j + 1], "tlc_tail": res.out[-1500:]})
-        else:
-            ctx.violation("trace;unexplained;%s" % (ev or {}).get("a"),
-                          "event %s of a recorded run is not a step of Handover.tla: %s" % (hw, ev),
-                          {"line": hw, "history": events[k:j + 1], "tlc_tail": res.out[-1500:]})
+                          "a recorded run of the real brokers walks into a state that violates %s of Handover.tla" % res.violated,
+                          {"history": history(j), "tlc_tail": res.out[-1500:]})
+        elif ev["a"] != "Panic" and k not in seen_runs:
+            ctx.violation("trace;unexplained;%s" % act_name(ev.get("act") or {}),
+                          "event %s of a recorded run is not a step of Handover.tla: %s" % (hw, json.dumps(ev.get("act"), sort_keys=True)),
+                          {"line": hw, "history": history(j), "observed": ev.get("obs"), "tlc_tail": res.out[-1500:]})
+        return k
+    return True
 
 
 # ---------------------------------------------------------------- run
@@ -427,27 +477,35 @@ def run(ctx):
         "before the next scheduled step (the harness waits for them)",
         "Y is honest: it challenges only voteproofs it received; forged traffic is limited to foreign ids and unexpected kinds",
     ]
+    parts = set((os.environ.get("VERIF_HANDOVER_PARTS") or "mc,cand,replay,trace,lock,ask").split(","))  # development aid
+    ctx.extra["parts"] = sorted(parts)
     # 1. exhaustive
-    r = ctx.tlc("Handover", "Handover_mc_quick.cfg" if quick else "Handover_mc_thorough.cfg", timeout=1500, java_opts=JAVA)
-    ctx.extra["mc"] = {"distinct": r.distinct, "generated": r.generated, "depth": r.diameter, "wall_s": round(r.wall, 1)}
-    if not quick:
-        for cfg in ("Handover_mc_thorough2.cfg", "Handover_mc_nodup.cfg"):
-            r2 = ctx.tlc("Handover", cfg, timeout=1500, java_opts=JAVA)
-            ctx.extra["mc_" + cfg] = {"distinct": r2.distinct, "generated": r2.generated, "wall_s": round(r2.wall, 1)}
-    ctx.exhaustive = True
+    if "mc" in parts:
+        r = ctx.tlc("Handover", "Handover_mc_quick.cfg" if quick else "Handover_mc_thorough.cfg", timeout=1500, java_opts=JAVA)
+        ctx.extra["mc"] = {"distinct": r.distinct, "generated": r.generated, "depth": r.diameter, "wall_s": round(r.wall, 1)}
+        if not quick:
+            for cfg in ("Handover_mc_thorough2.cfg", "Handover_mc_nodup.cfg"):
+                r2 = ctx.tlc("Handover", cfg, timeout=1500, java_opts=JAVA)
+                ctx.extra["mc_" + cfg] = {"distinct": r2.distinct, "generated": r2.generated, "wall_s": round(r2.wall, 1)}
+        ctx.exhaustive = True
     # candidates of the model, concretised
-    candidates(ctx)
+    if "cand" in parts:
+        candidates(ctx)
     # 2. binding A
-    for cfg, num, depth in (("Handover_sim.cfg", 120 if quick else 1500, 120), ("Handover_sim2.cfg", 120 if quick else 1500, 120)):
-        params, lim = cfg_params(ctx, cfg)
-        if lim["FinishRetry"] != 33 or lim["CancelRetry"] != 3:
-            raise core.MachineryError("%s must use the retry limits of the code (33, 3)" % cfg)
-        behs = simulate(ctx, cfg, num, depth)
-        cases = [behaviour_case("%s#%d" % (cfg, i), params, b) for i, b in enumerate(behs)]
-        rows = replay(ctx, cases, cfg.split(".")[0])
-        judge(ctx, cases, rows, cfg)
+    if "replay" in parts:
+        for cfg, num, depth in (("Handover_sim.cfg", 120 if quick else 1500, 120), ("Handover_sim2.cfg", 120 if quick else 1500, 120)):
+            params, lim = cfg_params(ctx, cfg)
+            if lim["FinishRetry"] != 33 or lim["CancelRetry"] != 3:
+                raise core.MachineryError("%s must use the retry limits of the code (33, 3)" % cfg)
+            behs = simulate(ctx, cfg, num, depth)
+            cases = [behaviour_case("%s#%d" % (cfg, i), params, b) for i, b in enumerate(behs)]
+            rows = replay(ctx, cases, cfg.split(".")[0])
+            judge(ctx, cases, rows, cfg)
     # 3. binding B
-    record_and_validate(ctx)
+    if "trace" in parts:
+        record_and_validate(ctx)
     # 4. lock order, ask
-    stress(ctx, lock_model(ctx))
-    ask(ctx)
+    if "lock" in parts:
+        stress(ctx, lock_model(ctx))
+    if "ask" in parts:
+        ask(ctx)
